@@ -23,6 +23,7 @@ from mc.shims import rebind
 PID = "C17"
 LEVEL = "exploration"
 DETERMINISM_IS_PROPERTY = True
+REDUCED = {'quick': 'each (genome, locus set) meets one of the 6 configurations (cycled), 5-tile genomes only with same/adjacent-tile locus pairs', 'thorough': 'each (genome, locus set) meets two of the 6 configurations (cycled)'}
 RULE = ("cases = (genome tile sequence, input locus set, in/out window, gc_bin_width, max_n_perc, bigwig on/off, signal_beta, seed, "
         "n_jobs / completion order) enumerated completely over the palette; non-trivial = the call returned at least one locus "
         "(every returned row is checked) or inputs went unmatched; counted separately: cases where a bin had to spill")
